@@ -112,9 +112,16 @@ class CylGrid:
             radii = np.concatenate([self.ri + np.arange(self.nr + 1) * self.dr, [self.r_out, self.r_in]])
             radii = (radii[:, None] + delta * SHIFT[None, :]).ravel()
             radii = radii[radii > 0.0]
-            disc = b * b - a * (c0 - radii * radii)
+            # closest approach to the axis first, then roots relative to it: b^2 - a(c - R^2) would cancel
+            # catastrophically for a far origin and a small radius (that is raysect's own weak spot, see TANGENT band)
+            tca = -b / a
+            pc = o + tca * d
+            tca -= (pc[0] * d[0] + pc[1] * d[1]) / a
+            pc = o + tca * d
+            rc2 = pc[0] * pc[0] + pc[1] * pc[1]
+            disc = (radii * radii - rc2) / a
             sq = np.sqrt(disc[disc >= 0.0])
-            ts += [(-b - sq) / a, (-b + sq) / a, np.array([-b / a])]
+            ts += [tca - sq, tca + sq, np.array([tca])]
         if d[2] != 0.0:
             planes = np.concatenate([np.arange(self.nz + 1) * self.dz, [self.z_top]])
             planes = (planes[:, None] + delta * SHIFT[None, :]).ravel()
@@ -129,6 +136,14 @@ class CylGrid:
                 ts.append((s * delta - s0[ok]) / sd[ok])
         return ts
 
+    def t_closest(self, o, d):
+        a = d[0] * d[0] + d[1] * d[1]
+        if a < 1e-24:
+            return None
+        tca = -(o[0] * d[0] + o[1] * d[1]) / a
+        pc = np.asarray(o) + tca * np.asarray(d)
+        return float(tca - (pc[0] * d[0] + pc[1] * d[1]) / a)
+
     def tangent_to_inner(self, o, d, delta):
         """True when the line is tangent to the inner bounding cylinder within the band in which raysect's
         Cylinder.hit cannot tell the entering from the leaving intersection (discriminant b^2-4ac rounds to ~0:
@@ -142,7 +157,10 @@ class CylGrid:
         zca = o[2] + tca * d[2]
         if zca < -1e-6 - delta or zca > self.z_top + 1e-6 + delta:
             return False
-        q = self.r_in ** 2 - (oxy2 - b * b / a)
+        pc = np.asarray(o) + tca * np.asarray(d)
+        t2 = tca - (pc[0] * d[0] + pc[1] * d[1]) / a
+        pc = np.asarray(o) + t2 * np.asarray(d)
+        q = self.r_in ** 2 - (pc[0] * pc[0] + pc[1] * pc[1])
         band = 3e-15 * (oxy2 + self.ro ** 2 + 1.0) + 1e-8 * self.r_in + 1e-16
         return bool(abs(q) <= band)
 
@@ -349,6 +367,24 @@ def analyse(grid, o, d, step, ms, delta):
     cont = (cand[:, :, None] == prevc[:, None, :]).any(axis=2)           # candidate already present in previous piece
     starts = (cand >= 0) & ~cont
     A.runs = np.bincount(cand[starts], minlength=ncell) + extra_visit
+    # a line can touch a cell boundary from inside the cell without leaving it only at the concave (inner) ring
+    # surface, i.e. at its closest approach to the axis: samples there may fall into the grazed inner ring and split
+    # the visit in two -> one more visit for the cells that are candidates in the radially ambiguous pieces around t_ca
+    if grid.kind == "cyl":
+        tca = grid.t_closest(o, d)
+        if tca is not None and t[0] < tca < t[-1]:
+            i0 = int(np.searchsorted(t, tca) - 1)
+            i0 = min(max(i0, 0), m - 1)
+            if keep[i0] and alt[i0, 0] >= 0:
+                lo_i = i0
+                while lo_i > 0 and keep[lo_i - 1] and alt[lo_i - 1, 0] >= 0:
+                    lo_i -= 1
+                hi_i = i0
+                while hi_i < m - 1 and keep[hi_i + 1] and alt[hi_i + 1, 0] >= 0:
+                    hi_i += 1
+                cells = np.unique(cand[lo_i:hi_i + 1])
+                cells = cells[cells >= 0]
+                A.runs[cells] += 1
     A._cand = cand
     A._extra_visit = extra_visit
     A.total_lo = float(A.lo.sum())
@@ -358,18 +394,45 @@ def analyse(grid, o, d, step, ms, delta):
 
 
 def active_bounds(A, active_flat):
-    """Bounds on the length of the ray inside the union of the active cells, and the number of separate visits of
-    that union (maximal runs of consecutive pieces with at least one active candidate cell)."""
+    """Bounds on the length of the ray inside the union of the active cells, and the largest number of separate
+    sample runs the union can receive: maximal runs of consecutive pieces with at least one active candidate cell,
+    plus one for every group of pieces with mixed (active and inactive) candidates strictly inside such a run
+    (samples falling into the inactive candidate split the run)."""
     if A._seq is None:
         return 0.0, 0.0, 0
     flat_main, keep, seg_id, unamb, ln = A._seq
     lo = float(A.lo[active_flat].sum())
     hi = float(min(A.hi[active_flat].sum(), A.total_hi))
     cand = A._cand
-    act = (np.where(cand >= 0, active_flat[np.clip(cand, 0, None)], False)).any(axis=1)
-    key = np.where(act, seg_id + 1, 0)
-    starts = (key > 0) & (key != np.concatenate(([0], key[:-1])))
-    return lo, hi, int(starts.sum()) + A._extra_visit
+    valid = cand >= 0
+    actc = np.where(valid, active_flat[np.clip(cand, 0, None)], False)
+    any_act = actc.any(axis=1)
+    all_act = (actc | ~valid).all(axis=1) & valid.any(axis=1)
+    code = np.where(any_act, np.where(all_act, 1, 2), 0)          # 1 = surely active, 2 = mixed, 0 = break
+    runs = 0
+    extra = 0
+    prev_seg = -1
+    in_run = False
+    seen_pure = False
+    pending_mixed = False
+    for c, sg in zip(code.tolist(), seg_id.tolist()):
+        if c == 0 or sg != prev_seg:
+            in_run = False
+        if c != 0:
+            if not in_run:
+                in_run = True
+                runs += 1
+                seen_pure = False
+                pending_mixed = False
+            if c == 1:
+                if pending_mixed and seen_pure:
+                    extra += 1
+                pending_mixed = False
+                seen_pure = True
+            else:
+                pending_mixed = True
+        prev_seg = sg
+    return lo, hi, runs + extra + A._extra_visit
 
 
 def fine_sample(grid, o, d, tmax, N):
